@@ -132,10 +132,8 @@ def convert_job(I, res, src_units, tgt_units, tag, deadline, src_fixed=None, tgt
         def case(m):
             s = ul.conc_entries(m, src); t = ul.conc_entries(m, tgt)
             xv = rt.mval(m, x)
-            st, tt = ul.spell_compound(s), ul.spell_compound(t)
-            c = {'src': s, 'tgt': t, 'x': str(xv)}
-            if st is not None and tt is not None: c.update({'op': 'query', 'text': f'{rt.frac_str(xv)} {st} to {tt}'})
-            else: c.update({'op': 'none'})
+            c = ul.factor_case(I, t, s, xv)
+            c.update({'src': ul.names_list(s), 'tgt': ul.names_list(t), 'x': str(xv), 'text': f'{rt.frac_str(xv)} {ul.spell_compound(s)} to {ul.spell_compound(t)}'})
             return c
         if kind == 'panic':
             rr, m = I.model_for(None)
@@ -186,40 +184,45 @@ def chain_job(I, res, units, deadline):
         if any(q.variant != 'Ok' or q.items[0].v is not True for q in rs):
             res['obligations'] += 1
             rr, m = I.model_for(None)
-            res['candidates'].append({'role': 'chain-refused', 'case': {'op': 'none', 'chain': [ul.conc_entries(m, e) for e in (ea, eb, ec)]}, 'detail': repr(rs)})
+            res['candidates'].append({'role': 'chain-refused', 'case': dict(ul.factor_case(I, ul.conc_entries(m, eb), ul.conc_entries(m, ea), 1), chain=True), 'detail': repr(rs)})
             return
         v2 = mnum.rz(mnum.rat_arg(I, vs[1])); v3 = mnum.rz(mnum.rat_arg(I, vs[2])); v4 = mnum.rz(mnum.rat_arg(I, vs[3]))
         def on_sat(m):
             ca, cb, cc = [ul.conc_entries(m, e) for e in (ea, eb, ec)]
             xv = rt.mval(m, x)
             sa, sb, sc = [ul.spell_compound(e) for e in (ca, cb, cc)]
-            res['candidates'].append({'role': 'chain-differs', 'case': {'op': 'query', 'text': f'{rt.frac_str(xv)} {sa} to {sb} to {sc}', 'direct': f'{rt.frac_str(xv)} {sa} to {sc}', 'back': f'{rt.frac_str(xv)} {sa} to {sb} to {sa}', 'x': str(xv)},
+            res['candidates'].append({'role': 'chain-differs', 'case': {'op': 'chain', 'x': str(xv), 'a': ul.entries_json(I, ca), 'b': ul.entries_json(I, cb), 'c': ul.entries_json(I, cc),
+                                                                         'text': f'{rt.frac_str(xv)} {sa} to {sb} to {sc}'},
                                       'detail': f'via={rt.mval(m, v2)} direct={rt.mval(m, v3)} back={rt.mval(m, v4)}'})
         if res.obligation(I, z3.Or(v2 != v3, v4 != x), 'a->b->c == a->c and a->b->a == id', on_sat) == 'unsat': res.witness('chain')
     harness.explore(I, res, entry, on_path, None, 100000, deadline)
 
 # ---------------------------------------------------------------- replay
+def fcase(t, s, x):
+    v = Fraction(x); return {'op': 'factor', 'target': t, 'source': s, 'value': f'{v.numerator}/{v.denominator}'}
 def confirm(c, outs):
+    import replay_client
     case = c['case']
-    if case.get('op') != 'query': return False, 'no query spelling for this case (not replayable)'
-    for prof, o in outs.items():
-        if 'panic' in o: return True, f'{prof}: panic {o["panic"]}'
-        rs = o.get('ok')
-        if not isinstance(rs, list) or len(rs) != 1: return True, f'{prof}: unexpected {o}'
-        r = rs[0]
-        if c['role'] == 'chain-differs':
-            import replay_client
-            o2 = replay_client.run_profile([{'op': 'query', 'text': case['direct']}, {'op': 'query', 'text': case['back']}], prof)
-            try:
-                via = rt.parse_frac(r['ok']['value']); direct = rt.parse_frac(o2[0]['ok'][0]['ok']['value']); back = rt.parse_frac(o2[1]['ok'][0]['ok']['value'])
-            except (KeyError, TypeError): return True, f'{prof}: chain refused {r} {o2}'
+    for prof in outs:
+        if case['op'] == 'chain':
+            x = Fraction(case['x'])
+            o1 = replay_client.run_profile([fcase(case['b'], case['a'], x), fcase(case['c'], case['a'], x)], prof)
+            try: mid = rt.parse_frac(o1[0]['ok']['value']); direct = rt.parse_frac(o1[1]['ok']['value'])
+            except (KeyError, TypeError): return True, f'{prof}: chain refused {o1}'
+            o2 = replay_client.run_profile([fcase(case['c'], case['b'], mid), fcase(case['a'], case['b'], mid)], prof)
+            try: via = rt.parse_frac(o2[0]['ok']['value']); back = rt.parse_frac(o2[1]['ok']['value'])
+            except (KeyError, TypeError): return True, f'{prof}: chain refused {o2}'
             if via != direct: return True, f'{prof}: via intermediate {via} != direct {direct}'
-            if back != Fraction(case['x']): return True, f'{prof}: there and back gives {back} instead of {case["x"]}'
+            if back != x: return True, f'{prof}: there and back gives {back} instead of {x}'
             continue
-        if 'err' in r: return True, f'{prof}: refused: {r["err"]}'
+        o = outs[prof]
+        if 'panic' in o: return True, f'{prof}: panic {o["panic"]}'
+        r = o.get('ok') or {}
+        if r.get('refused') or r.get('commensurable') is False: return True, f'{prof}: commensurable conversion refused: {r}'
+        if 'src' not in case: continue
         src = [tuple(e) for e in case['src']]; tgt = [tuple(e) for e in case['tgt']]
-        want = Fraction(case['x']) * U.si_factor(src) / U.si_factor(tgt)
-        got = rt.parse_frac(r['ok']['value'])
+        want = Fraction(case['x']) * ul.decl_si_factor(src) / ul.decl_si_factor(tgt)
+        got = rt.parse_frac(r['value'])
         if got != want: return True, f'{prof}: converted to {got}, the physical quantity is {want}'
     return False, 'real build agrees with the oracle'
 
